@@ -501,9 +501,17 @@ fn cbor_to_vec<T: Serialize>(v: &T) -> Result<Vec<u8>, String> {
 fn cenc_t<T: Serialize + DeserializeOwned>(t: &Tree) -> Result<Vec<u8>, String> {
     cbor_to_vec(&value_of::<T>(t)?)
 }
-fn cdec_t<T: Serialize + DeserializeOwned>(b: &[u8]) -> Result<(Tree, Vec<u8>), String> {
+/// A decoded message is logged by its receiver (`{:?}` of the whole request / of its addresses at INFO and above in
+/// ant-networking's request handlers): formatting what was decoded is part of "decoding never crashes" (a panic here
+/// is caught by `exec`'s catch_unwind and reported as `panic`). Found by audit: `Debug for NetworkAddress::RecordKey`
+/// sliced the key's hex `[0..6]`, so a well-formed message carrying a 0-2 byte record key panicked the handler.
+fn log_like_a_receiver<T: std::fmt::Debug>(v: &T) {
+    let _ = format!("{v:?}");
+}
+fn cdec_t<T: Serialize + DeserializeOwned + std::fmt::Debug>(b: &[u8]) -> Result<(Tree, Vec<u8>), String> {
     // what the codec's `read_*` does with the bytes it has read
     let v: T = cbor4ii::serde::from_slice(b).map_err(|e| e.to_string())?;
+    log_like_a_receiver(&v);
     Ok((to_tree_named(&v).map_err(|e| e.to_string())?, cbor_to_vec(&v)?))
 }
 fn cenc_request(t: &Tree) -> Result<Vec<u8>, String> {
@@ -514,10 +522,12 @@ fn cenc_response(t: &Tree) -> Result<Vec<u8>, String> {
 }
 fn cdec_request(b: &[u8]) -> Result<(Tree, Vec<u8>), String> {
     let v = codec_read_request(b)?;
+    log_like_a_receiver(&v);
     Ok((to_tree_named(&v).map_err(|e| e.to_string())?, codec_write_request(v)?))
 }
 fn cdec_response(b: &[u8]) -> Result<(Tree, Vec<u8>), String> {
     let v = codec_read_response(b)?;
+    log_like_a_receiver(&v);
     Ok((to_tree_named(&v).map_err(|e| e.to_string())?, codec_write_response(v)?))
 }
 macro_rules! cty {
